@@ -248,3 +248,58 @@ def reading_matches(word, scale, dims):
             if lo <= scale <= hi:
                 return True
     return False
+
+# ---------------------------------------------------------------------------------------------
+# Diagnosis aid (not an oracle): where would a two-phase longest-match word lexer - first over
+# {unit names that are not also prefix spellings} + {prefix spellings}, then, after a prefix, over all
+# unit names - walk *past* the token it finally reports? Used only to key known findings about the
+# generated lexer's fall-back behaviour on the sub-string that triggers it.
+def _trie(words):
+    t = {}
+    for w in words:
+        n = t
+        for c in w:
+            n = n.setdefault(c, {})
+        n[""] = w
+    return t
+
+_T2 = _trie(list(NAME2UNITS) + ["-"])
+_T1 = _trie([n for n in NAME2UNITS if n not in PREFIXES] + list(PREFIXES) + ["-"])
+
+def _munch(trie, s, i):
+    """(end of longest accepted token or None, deepest position reached on a trie path)"""
+    n, j, last = trie, i, None
+    while j < len(s) and s[j] in n:
+        n = n[s[j]]
+        j += 1
+        if "" in n:
+            last = j
+    return last, j
+
+def fallback_node(word):
+    """First place where the maximal-munch walk overshoots the token it must fall back to:
+    ('T1'|'T2', overshoot sub-string) or None."""
+    i = 0
+    guard = 0
+    while i < len(word) and guard < 100:
+        guard += 1
+        last, deep = _munch(_T1, word, i)
+        if last is None:
+            return None
+        if deep > last:
+            return ("T1", word[i:deep])
+        tok = word[i:last]
+        i = last
+        if tok == "-":
+            continue
+        if tok in PREFIXES and not (tok in NAME2UNITS and i == len(word)):
+            # phase 2: a unit name must follow
+            while i < len(word) and word[i] == "-":
+                i += 1
+            last, deep = _munch(_T2, word, i)
+            if last is None:
+                return None
+            if deep > last:
+                return ("T2", word[i:deep])
+            i = last
+    return None
